@@ -716,7 +716,7 @@ def translate_source(source, fname="pure_murmur2", coqname="gen_pure_murmur2"):
     body = ("(* GENERATED by harness/py2coq.py from afkak/partitioner.py pure_murmur2 - do not edit. *)\n" + PRELUDE
             + "".join(text + "\n" for _, text in tr.order) + main_text
             + "\nDefinition gen_seed : Z := (%d).\n" % seed
-            + "\nCreate HintDb gen_defs.\n#[export] Hint Unfold %s : gen_defs.\n" % " ".join(names))
+            + "\nCreate HintDb gen_defs.\n#[export] Hint Unfold %s gen_seed : gen_defs.\n" % " ".join(names))
     return body, "translated" + ((" (helpers inlined: %s)" % ", ".join(f for f, _ in tr.order)) if tr.order else "")
 
 
